@@ -83,6 +83,22 @@ func C10(c *Case) *Result {
 		maxBlocks = 2
 	}
 	rec := GenDataRecipe(t, cfg.BlockSize, maxBlocks)
+	// the codecs with content-dependent behaviour get the content they react to in half of the cases
+	if t.Intn(2) == 0 {
+		switch {
+		case chainHas(cfg, "TEXT"):
+			rec.Shape = []string{"prose", "text", "utf8"}[t.Intn(3)]
+			rec.Len = max(rec.Len, min(3*cfg.BlockSize, 20000+t.Intn(40000)))
+		case chainHas(cfg, "UTF"):
+			rec.Shape = "utf8"
+		case chainHas(cfg, "DNA"):
+			rec.Shape = "dna"
+		case chainHas(cfg, "EXE"):
+			rec.Shape = "exe"
+		case chainHas(cfg, "MM"):
+			rec.Shape = []string{"wav", "bmp"}[t.Intn(2)]
+		}
+	}
 	data := rec.Bytes()
 	hintValue(&cfg, len(data), t)
 	if cfg.Hint == "smaller" {
